@@ -715,6 +715,80 @@ func reachesAvoiding(from, to, avoid *ssa.BasicBlock) bool {
 	return false
 }
 
+
+// K5: nothing is read through the slot pointer after the slot was recycled. Once the scratch slot has been Reset()
+// (or the chosen slot itself on an error), the element just parsed is gone when it lived in the scratch slot but still
+// there when it lived in the caller's array: any later read through the slot pointer in the same iteration (its type
+// for the Types summary, its name for the classification, its expires for the min/max) yields a result that depends on
+// the capacity of the caller's array.
+func ruleK5(c *Ctx) {
+	n := 0
+	for _, s := range findSlotSites(c) {
+		fk := ssaKey(s.fn)
+		sp := addrPath(s.scratch)
+		for _, b := range s.fn.Blocks {
+			for ii, ins := range b.Instrs {
+				call, ok := ins.(*ssa.Call)
+				if !ok {
+					continue
+				}
+				cal := call.Call.StaticCallee()
+				if cal == nil || cal.Name() != "Reset" || len(call.Call.Args) == 0 {
+					continue
+				}
+				recv := call.Call.Args[0]
+				if !(recv == ssa.Value(s.p) || (sp != "" && addrPath(recv) == sp)) {
+					continue
+				}
+				n++
+				// forward from the instruction after the call, within this iteration (not re-entering the block that
+				// selects the slot)
+				var bad []string
+				var badPos token.Pos
+				seen := map[*ssa.BasicBlock]bool{}
+				var scan func(bb *ssa.BasicBlock, from int)
+				scan = func(bb *ssa.BasicBlock, from int) {
+					for _, in := range bb.Instrs[from:] {
+						if bo, isB := in.(*ssa.BinOp); isB && (bo.Op == token.EQL || bo.Op == token.NEQ) {
+							continue
+						}
+						if _, isPhi := in.(*ssa.Phi); isPhi {
+							continue
+						}
+						for _, op := range in.Operands(nil) {
+							if *op != nil && derivesFrom(*op, s.p) {
+								switch in.(type) {
+								case *ssa.FieldAddr, *ssa.IndexAddr:
+									// address computation only; the read shows up at its use
+								default:
+									bad = append(bad, c.Prog.pos(in.Pos()))
+									if !badPos.IsValid() {
+										badPos = in.Pos()
+									}
+								}
+							}
+						}
+					}
+					for _, su := range bb.Succs {
+						if su == s.p.Block() || seen[su] {
+							continue
+						}
+						seen[su] = true
+						scan(su, 0)
+					}
+				}
+				scan(b, ii+1)
+				pos := call.Pos()
+				if badPos.IsValid() {
+					pos = badPos
+				}
+				c.check(len(bad) == 0, "K5", fmt.Sprintf("%s:no-use-after-recycle#%d", fk, n), pos, fmt.Sprintf("after the recycling %s at %s nothing is read or passed through the slot pointer before the next slot is selected (uses: %v)", callLabel(call), c.Prog.pos(call.Pos()), bad))
+			}
+		}
+	}
+	c.check(n >= 9, "K5", "instances", token.NoPos, fmt.Sprintf("%d recycling calls in the slot-selecting parsers (frozen minimum 9)", n))
+}
+
 // K4: every slot of the caller's array is used. In each slot-selecting parser the array element is chosen exactly
 // when N < len(array) — the guard on the edge that takes &array[N] is the single fact N - len(array) + 1 <= 0 over
 // the same array and the same counter that index it — so the stored elements are min(N, capacity): a message whose
@@ -755,6 +829,7 @@ func init() {
 			{"K1", "non-interference: in the five slot-selecting parsers no value derived from len(caller array), and no branch on it or on the chosen slot pointer, reaches (by data or control dependence, from post-dominators) a summary store (N, HNo, PFlags, Types, Min/MaxExpires, LastHVal, first-of-type), the flag/first-of-type updates or a return", ruleK1},
 			{"K2", "scratch == fresh (typestate of the scratch slot, path exploration with verdict refinement): whenever the loop goes on to the next element with the scratch slot in use it has been Reset(); more-bytes returns never reset the in-progress slot; resets before the sub-parser call only under scratch.Parsed(); success returns either reset or rely on that lazy entry reset", ruleK2},
 			{"K4", "every slot of the caller's array is used: in each of the five slot-selecting parsers the element &array[N] is chosen on an edge whose only fact is exactly N - len(array) + 1 <= 0 over the same counter and array, so stored elements = min(N, capacity)", ruleK4},
+			{"K5", "no use after recycle: in the slot-selecting parsers, after a Reset() of the scratch slot (or of the chosen slot) no instruction of the same iteration reads, or passes on, memory through the slot pointer; a read placed after the recycling sees the element only when it was stored in the caller's array", ruleK5},
 			{"K3", "counters and classification are unconditional top-level statements of the completion clause; HNo advances exactly on first entry of a header", ruleK3},
 		},
 		Assumptions: []string{"values read through the chosen slot pointer are capacity-independent because scratch and fresh slots are indistinguishable (K2 + C12-Z2)"},
